@@ -59,7 +59,15 @@ func (r *Result) Eval(key string, nontrivial bool, sample string) {
 
 func (r *Result) Add(f Finding) {
 	r.mu.Lock()
-	if len(r.Findings) < 200 {
+	// at most 200 findings of each kind are kept: a flood of correspondence differences must not
+	// crowd out the property failures (the failing inputs) found later in the same run
+	n := 0
+	for i := range r.Findings {
+		if (r.Findings[i].Kind == "property") == (f.Kind == "property") {
+			n++
+		}
+	}
+	if n < 200 {
 		r.Findings = append(r.Findings, f)
 	}
 	r.mu.Unlock()
